@@ -185,12 +185,18 @@ pub fn gen_ht(r: &mut Rng, preds: &[(String, usize)], pool: &[Value], cofinite_d
     let mut h = Interp::default();
     let mut t = Interp::default();
     for (p, n) in preds {
-        let tuples = tuples_over(pool, *n);
+        // all tuples over the pool for small arities, a handful of random tuples for large ones
+        let tuples = if *n <= 3 {
+            tuples_over(pool, *n)
+        } else {
+            (0..6).map(|_| (0..*n).map(|_| pool[r.upto(pool.len())].clone()).collect::<Vec<Value>>()).collect()
+        };
         let dens = match *n {
             0 => 2,
             1 => 3,
             2 => 8,
-            _ => 30,
+            3 => 30,
+            _ => 2,
         };
         let cof = cofinite_den > 0 && r.below(cofinite_den) == 0;
         let mut te = Ext { exc: BTreeSet::new(), default: cof };
